@@ -6,7 +6,8 @@
    KNOWN FINDING (DESIGN.md section 7, D12): non-finite floats and timestamps outside the years 0..9999 make the tool fail. *)
 From Coq Require Import List NArith ZArith Bool String.
 Import ListNotations.
-Require Import Codec Vocab JsonOut JsonOutProofs JsonDoc.
+From Coq Require Import Sorting.Sorted Sorting.Permutation.
+Require Import Codec Vocab JsonOut JsonOutProofs JsonDoc JsonKeys.
 Local Open Scope N_scope.
 
 (* jsonmerged: what a key holds - no container under the tag: the last scalar; exactly one: its merged object;
@@ -24,11 +25,51 @@ Proof. exact JsonOutProofs.C13_no_loss. Qed.
 Theorem C13_keys : forall l k, lookup k (merged l) <> None <-> existsb (tagged k) l = true.
 Proof. exact JsonOutProofs.C13_keys. Qed.
 
+(* every object of the jsonmerged document is a JSON object in the strict sense: the keys of a grouped object are pairwise
+   distinct (for every message list, hence at every nesting level: the value under a key is JO (merged c) or JA (map merged cs)),
+   MarshalJSON prints the same members in ascending tag order, and the member NAMES (the strings written for the tags, unknown
+   numeric tags included) are pairwise distinct as well *)
+Theorem C13_keys_distinct : forall l, NoDup (map fst (merged l)).
+Proof. exact JsonKeys.merged_keys_nodup. Qed.
+Theorem C13_member_order : forall l,
+  NoDup (map fst (sort_obj (merged l))) /\ Sorted (fun a b => fst a <= fst b) (sort_obj (merged l)) /\
+  Permutation (sort_obj (merged l)) (merged l).
+Proof. exact JsonKeys.printed_keys. Qed.
+Theorem C13_member_names_distinct : forall l, Forall (fun m => match m with Msg t _ _ => t < 4294967296 end) l ->
+  NoDup (map (fun kv => marshal_tag (fst kv)) (sort_obj (merged l))).
+Proof. exact JsonKeys.printed_names_distinct. Qed.
+(* ... and these are the member names of the document render_merged builds *)
+Theorem C13_merged_document : forall yneg ms, exists members,
+  render_merged yneg ms = DObj members /\ map fst members = map (fun kv => marshal_tag (fst kv)) (sort_obj (merged ms)).
+Proof.
+  intros yneg ms. unfold render_merged. cbn [Nat.mul Nat.add doc_of_jv].
+  eexists. split; [reflexivity|]. rewrite map_map. reflexivity.
+Qed.
+
 (* jsonsimple is the ordered list of one-key objects; json lists every message with tag, type and value - in order *)
 Theorem C13_simple : forall yneg ms, render_simple yneg ms = DArr (map (msg_simple yneg) ms).
 Proof. reflexivity. Qed.
 Theorem C13_json : forall ms, render_json ms = DArr (map msg_json ms).
 Proof. reflexivity. Qed.
+
+(* ... nested likewise: a container is its tag with the list of its children's documents, in order, at every depth *)
+Theorem C13_simple_nested : forall yneg t d kids,
+  msg_simple yneg (Msg t d (GMsgs kids)) = DObj [(marshal_tag t, DArr (map (msg_simple yneg) kids))].
+Proof.
+  intros yneg t d kids. cbn [msg_simple].
+  assert (G : forall l, (fix go (l : list message) : list jdoc := match l with [] => [] | x :: r => msg_simple yneg x :: go r end) l = map (msg_simple yneg) l).
+  { induction l as [|x r IH]; [reflexivity|]. cbn [map]. rewrite <- IH. reflexivity. }
+  rewrite G. reflexivity.
+Qed.
+Theorem C13_json_nested : forall t d k kids,
+  msg_json (Msg t d (GMsgs (k :: kids))) =
+  DObj [("Tag"%string, DStr (marshal_tag t)); ("DataType"%string, DStr (dt_string d)); ("Value"%string, DArr (map msg_json (k :: kids)))].
+Proof.
+  intros t d k kids. cbn [msg_json].
+  assert (G : forall l, (fix go (l : list message) : list jdoc := match l with [] => [] | x :: r => msg_json x :: go r end) l = map msg_json l).
+  { induction l as [|x r IH]; [reflexivity|]. cbn [map]. rewrite <- IH. reflexivity. }
+  cbn [map]. rewrite ?G. reflexivity.
+Qed.
 
 (* non-vacuity: A A B keeps both occurrences of A under A and B's own data under B; a scalar never displaces a container *)
 Example C13_nonvacuous :
@@ -39,3 +80,5 @@ Proof. vm_compute. split; reflexivity. Qed.
 
 Print Assumptions C13_merged_entry. Print Assumptions C13_provenance. Print Assumptions C13_no_loss. Print Assumptions C13_keys.
 Print Assumptions C13_simple. Print Assumptions C13_json.
+Print Assumptions C13_keys_distinct. Print Assumptions C13_member_order. Print Assumptions C13_member_names_distinct. Print Assumptions C13_merged_document.
+Print Assumptions C13_simple_nested. Print Assumptions C13_json_nested.
